@@ -45,7 +45,8 @@ def catalogue(K, thorough=False):
             S.RES(K), S.RES(K, r=2, q=0), S.RES_SER(K), S.MAINT(K), S.MAINT(K, n=1), S.BLOCK(K),
             S.BUDGET(K), S.REWIRE(K),
             S.BATCH(K, size=2, cap=3, sink_cycle=2), S.BUFBATCH(K), S.BUFBATCH(K, pattern=(3, 2), cap=4, size=2),
-            S.BATCH_DIRECT(K), S.GRPFAN(K), S.RES_SHUT(K), S.BLOCKED_OUT(K), S.FANOUT_DELAY(K), S.BATCHGATE(K)]
+            S.BATCH_DIRECT(K), S.GRPFAN(K), S.RES_SHUT(K), S.BLOCKED_OUT(K), S.FANOUT_DELAY(K), S.BATCHGATE(K),
+            S.GRPPAR(K, horizon=hg), S.SCHED_BLOCK(K)]
     return rows
 
 
@@ -212,7 +213,8 @@ class C08(Check):
         K = 1 if tier == 'quick' else 2
         th = tier != 'quick'
         hg = 6 if th and K <= 1 else 4
-        specs = [S.FAN(K), S.FAN3(2, horizon=8), S.GRPFAN(K), S.BATCHGATE(K), S.BATCH_DIRECT(K), S.GATE(K), S.REENT(K), S.REENT(K, src_cycle=1), S.GRP2(K, horizon=hg),
+        specs = [S.FAN(K), S.FAN3(2, horizon=8), S.GRPFAN(K), S.GRPPAR(K, horizon=hg), S.SCHED_BLOCK(K), S.RES(K),
+                 S.BATCHGATE(K), S.BATCH_DIRECT(K), S.GATE(K), S.REENT(K), S.REENT(K, src_cycle=1), S.GRP2(K, horizon=hg),
                  S.NEST_MID(K, horizon=hg), S.NEST_OUT(K, horizon=hg), S.BLOCK(K), S.BATCH(K), S.REWIRE(K), S.GATEGRP(K)]
         return _line_jobs(specs, ['route'], tier) + topo_jobs(['route'], tier)
 
@@ -231,7 +233,7 @@ class C11(Check):
     def jobs(self, tier):
         K = 1 if tier == 'quick' else 2
         specs = [S.RES(K), S.RES(K, r=2, q=0), S.RES(K + 1, horizon=4), S.RES_SER(K), S.RES_SER(K + 1, horizon=4),
-                 S.GRP2(K, horizon=4, resources=True), S.RES_MAINT(K + 1)]
+                 S.GRP2(K, horizon=4, resources=True), S.GRPPAR(K, horizon=4, resources=True), S.RES_MAINT(K + 1)]
         return _line_jobs(specs, ['resources'], tier)
 
 
